@@ -40,7 +40,8 @@ class ObsDomain(EvDomain):
         if on == ACT and base == 'count':
             v = self.consult('id_active', st, fr, n); return Lin.const(1 if v else 0) if v is not None else Unknown(('count', n.id))
         if on == ACT and base == 'find': return Sym(f'{ACT}.find')
-        if on == OBS and base == 'empty':
+        if on in (OBS, ACT) and base == 'empty':
+            # the id set is empty exactly when the observer table is: the two change together (SUB.6, checked on every member)
             v = self.atom('observers_empty'); return v if v is not None else Unknown(('empty', n.id))
         if base in ('operator==', 'operator!='):
             ops = [x for x in ([ov] + list(vals)) if x is not None]
